@@ -482,14 +482,14 @@ func readPath(v Value, path []PathElem) Value {
 			if k >= len(x.E) {
 				// out of bounds (an obligation was recorded by the caller)
 				if len(x.E) == 0 {
-					panic(unsupported("read from empty vector"))
+					return nil
 				}
 				k = 0
 			}
 			return readPath(x.E[k], path[1:])
 		}
 		if len(x.E) == 0 {
-			panic(unsupported("read from empty vector"))
+			return nil
 		}
 		var out Value
 		for k := len(x.E) - 1; k >= 0; k-- {
